@@ -642,12 +642,15 @@ pub unsafe extern "C" fn SFileHasFile(archive: HANDLE, filename: *const c_char) 
         Err(_) => return false,
     };
 
-    let archives = ARCHIVES.lock().unwrap();
-    if let Some(archive_handle) = archives.get(&archive_id) {
-        matches!(
-            archive_handle.archive().find_file(filename_str),
-            Ok(Some(_))
-        )
+    let mut archives = ARCHIVES.lock().unwrap();
+    if let Some(archive_handle) = archives.get_mut(&archive_id) {
+        // A writable archive must be asked through its session state (files added, renamed or
+        // removed since it was opened), exactly as SFileOpenFileEx does.
+        let found = match archive_handle {
+            ArchiveHandle::ReadOnly { archive, .. } => archive.find_file(filename_str),
+            ArchiveHandle::Mutable { archive, .. } => archive.find_file(filename_str),
+        };
+        matches!(found, Ok(Some(_)))
     } else {
         false
     }
@@ -1138,8 +1141,12 @@ pub unsafe extern "C" fn SFileVerifyFile(
         return false;
     };
 
-    // Find the file first to get file info
-    let file_info = match archive_handle.archive().find_file(filename_str) {
+    // Find the file first to get file info (session state for writable archives)
+    let found = match archive_handle {
+        ArchiveHandle::ReadOnly { archive, .. } => archive.find_file(filename_str),
+        ArchiveHandle::Mutable { archive, .. } => archive.find_file(filename_str),
+    };
+    let file_info = match found {
         Ok(Some(info)) => info,
         Ok(None) => {
             set_last_error(ERROR_FILE_NOT_FOUND);
